@@ -57,6 +57,13 @@ CANCEL_FORCE_SWEEP_METHODS = [
 EDIT_SWEEP_METHOD = ["Base: s", "Macro: M", "    Mark: a", "    Wait: 0.5s", "    Mark: b", "Call macro: M", "Wait: 0.3s", "Call macro: M",
                      "Mark: end", ""]
 
+VOLUME_METHODS = [
+    ["Base: L", "Wait: 0.5s", "Block: O", "    Block: I", "        1 End block", "    2.5 Mark: X", "    4 End block", "1 Mark: done", ""],
+    ["Base: L", "1 Mark: a", "Block: B", "    0.5 Mark: b", "    1.5 Mark: c", "    End block", "Base: s", "0.2 Mark: d", ""],
+    ["Base: L", "Block: O", "    1 Mark: o1", "    Block: I", "        0.5 Mark: i1", "        End block", "    1.5 Mark: o2",
+     "    Block: J", "        1 End block", "    3 End block", ""],
+]
+
 CONTROLS = ["Start", "Stop", "Pause", "Unpause", "Hold", "Unhold", "Restart"]
 SNIPPETS = ["Mark: inj", "Set1: 1", "Set1: 2", "Short", "Long", "Wait: 0.2s", "Block: IB\n    Mark: ib\n    End block", "Fail",
             "Pause: 0.2s", "Hold: 0.2s"]
@@ -205,6 +212,15 @@ def build(ctx: core.Ctx):
             steps = [{"req": [{"k": "control", "name": "Start"}], "in": {"In": 0.0}}] + [{} for _ in range(at)] + \
                 [{"req": [{"k": "editop", "op": op, "text": "Mark: ed"}]}] + [{} for _ in range(16)]
             runs.append(dict(_run(f"swe-{n}", "prog", EDIT_SWEEP_METHOD, steps), variant="edit"))
+            n += 1
+    # volume base: thresholds against the volume accumulated in the innermost block, while the totalizer runs (In >= 3),
+    # stands still, or does both in turn
+    n = 0
+    for method in VOLUME_METHODS:
+        for pattern in ((3.0,), (3.0, 3.0, 0.0), (0.0, 3.0), (3.0, 0.0, 0.0, 3.0, 3.0)):
+            steps = [{"req": [{"k": "control", "name": "Start"}], "in": {"In": pattern[0]}}] + \
+                [{"in": {"In": pattern[k % len(pattern)]}} for k in range(1, 60)]
+            runs.append(dict(_run(f"vol-{n}", "prog", method, steps), variant="plain"))
             n += 1
     nrnd = 600 if ctx.quick else 3000
     for i in range(nrnd):
